@@ -437,6 +437,81 @@ theorem attrStartW_prefix (c : WCfg) (a : Attr) (v : Bytes) (st st' : WSt) (rest
       rw [ptrAdd_ok hp, hc]
       simpa [attrTokenW_curAttr, preOf] using (List.prefix_iff_eq_append.mp hpre).symm
 
+/-- `current_attr` after `wbxml_encode_attr_start`, as a function of the source attribute alone
+    (no encoder state, no option other than the language). -/
+def startRow (c : WCfg) (a : Attr) : Option AttrRow :=
+  match a.name with
+  | .token r =>
+    match r.value with
+    | none => some r
+    | some p => if p.isPrefixOf (cstrOf a.value) then some r else none
+  | .literal s =>
+    match (if s.isEmpty then AttrHit.none else attrLookup c.lang (cstrOf s) (cstrOf a.value)) with
+    | .none => none
+    | .exact r => some r
+    | .part r _ => some r
+
+theorem attrStartW_cur (c : WCfg) (a : Attr) (st st' : WSt) (rest : Option Bytes)
+    (h : attrStartW c a (cstrOf a.value) st = .ok (rest, st')) : st'.curAttr = startRow c a := by
+  unfold attrStartW at h
+  unfold startRow
+  cases hname : a.name with
+  | token r =>
+    simp only [hname] at h ⊢
+    cases hval : r.value with
+    | none =>
+      simp only [hval] at h
+      injection h with h; injection h with h1 h2
+      subst h1 h2
+      simp [attrTokenW_curAttr]
+    | some p =>
+      simp only [hval] at h
+      split at h
+      · rename_i hpre
+        have hpre' : p.isPrefixOf (cstrOf a.value) = true := hpre
+        simp only [hpre', ↓reduceIte]
+        split at h
+        · obtain ⟨tail, hp, h⟩ := bind_ok' h
+          injection h with h; injection h with h1 h2
+          subst h1 h2
+          simp [attrTokenW_curAttr]
+        · injection h with h; injection h with h1 h2
+          subst h1 h2
+          simp [attrTokenW_curAttr]
+      · rename_i hpre
+        have hpre' : p.isPrefixOf (cstrOf a.value) = false := by
+          cases hb : p.isPrefixOf (cstrOf a.value) with
+          | false => rfl
+          | true => exact absurd hb hpre
+        simp only [hpre', Bool.false_eq_true, ↓reduceIte]
+        obtain ⟨st1, hlit, h⟩ := bind_ok' h
+        injection h with h; injection h with h1 h2
+        subst h1 h2
+        exact attrLiteralW_curAttr c _ _ _ hlit
+  | literal s =>
+    simp only [hname] at h ⊢
+    cases hhit : (if s.isEmpty then AttrHit.none else attrLookup c.lang (cstrOf s) (cstrOf a.value)) with
+    | none =>
+      rw [hhit] at h
+      simp only at h
+      obtain ⟨st1, hlit, h⟩ := bind_ok' h
+      injection h with h; injection h with h1 h2
+      subst h1 h2
+      exact attrLiteralW_curAttr c _ _ _ hlit
+    | exact r =>
+      rw [hhit] at h
+      simp only at h
+      injection h with h; injection h with h1 h2
+      subst h1 h2
+      simp [attrTokenW_curAttr]
+    | part r comp =>
+      rw [hhit] at h
+      simp only at h
+      obtain ⟨tail, hp, h⟩ := bind_ok' h
+      injection h with h; injection h with h1 h2
+      subst h1 h2
+      simp [attrTokenW_curAttr]
+
 /-! ### Attribute values -/
 
 theorem bind_ok_some {α : Type} (x : Except Err α) (f : α → WSt) (st2 : WSt)
@@ -946,6 +1021,76 @@ theorem astartOk_name (c : WCfg) (tbl) (ap : Nat) (nm) (as : AStart) (cur) (h : 
     simp only [Option.map_some, Option.some.injEq] at hs
     rw [hs, hn]
 
+/-- A reader like `Rd` for EVERY language: typed attribute values allowed, aliases in the tag table
+    allowed (the view then names the alias, see `nameView`). -/
+structure RdT (c : WCfg) (tbl : List StrEntry) (ctx : Ctx) : Prop where
+  lang : ctx.lang = c.lang
+  res : Resolves ctx.tbl tbl
+  ok : langOk c.lang = true
+  vs : valSemOk c.lang = true
+  as : attrSemOk c.lang = true
+  an : attrNameSemOk c.lang = true
+  tl : typedLangOk c.lang = true
+
+theorem RdT.mono {c : WCfg} {tbl tbl' : List StrEntry} {ctx : Ctx} (h : RdT c tbl' ctx) (hp : tbl <+: tbl') :
+    RdT c tbl ctx := ⟨h.lang, h.res.mono hp, h.ok, h.vs, h.as, h.an, h.tl⟩
+
+theorem RdT.of_eq {c : WCfg} {tbl tbl' : List StrEntry} {ctx : Ctx} (h : RdT c tbl' ctx) (he : tbl = tbl') :
+    RdT c tbl ctx := he ▸ h
+
+theorem astartOk_name' (c : WCfg) (tbl) (ap : Nat) (nm) (as : AStart) (cur) (h : AStartOk c tbl ap nm as cur)
+    (ctx : Ctx) (hr : RdT c tbl ctx) (hnf : nulFree nm = true) : (astartName ctx ap as).1.xmlName = nm := by
+  cases h with
+  | lit off ho =>
+    obtain ⟨e, he, rfl, rfl⟩ := ho
+    simp only [astartName, AName.xmlName]
+    exact hr.res e he hnf
+  | tok attrs r ha hrm hn =>
+    have hrange := attrRange r (langOk_attrs hr.ok ha hrm).1
+    obtain ⟨r', hf, hm, ht, hp⟩ := attrRow_found' c ctx hr.lang attrs ha r hrm hrange.2 ap
+    simp only [astartName, hf, AName.xmlName]
+    have hs : (decAttr attrs r.page r.token).map (·.name) = some r.name := by
+      have := hr.an
+      simp only [attrNameSemOk, ha, List.all_eq_true, Bool.and_eq_true, beq_iff_eq] at this
+      exact (this r hrm).2
+    have hf' : attrRow ctx r.page r.token = some r' := by
+      rw [swPage_swFor, Nat.mod_eq_of_lt hrange.2] at hf; exact hf
+    have ha' : ctx.lang.attrs = some attrs := by rw [hr.lang]; exact ha
+    have : decAttr attrs r.page r.token = some r' := by
+      simp only [attrRow, ha'] at hf'; exact hf'
+    rw [this] at hs
+    simp only [Option.map_some, Option.some.injEq] at hs
+    rw [hs, hn]
+
+/-- What a reader shows for a `%Datetime` payload (`decode_datetime`; nothing for an empty one). -/
+def dtShow (p : Bytes) : Bytes :=
+  if p.isEmpty then [] else match decodeDatetime p with | .ok b => b | .error _ => []
+
+/-- **The value a reader reports for an attribute**, as a function of the source value `v` (a C
+    string) and the row `cur` of its start token (`startRow`): the value itself, except under an SI /
+    EMN `%Datetime` start token, where it is the text `decode_datetime` makes of the BCD payload
+    `wbxml_encode_datetime` makes of `v` (C12: the same instant). Not for OTA settings (the icon
+    value; there the string table is never used and `sameWalk` applies). No option is looked at. -/
+def vAttrValue (c : WCfg) (cur : Option AttrRow) (v : Bytes) : Bytes :=
+  match cur with
+  | some r =>
+    if dtRow c.lang.id r && !v.isEmpty then
+      match Typed.datetimePayload v with
+      | .ok p => dtShow p
+      | .error _ => v
+    else v
+  | none => v
+
+/-- The typed source view of an attribute: XML name and the value buffer the handler gets. -/
+def vAttr (c : WCfg) (a : Attr) : Bytes × Bytes :=
+  (a.name.cName, withNul (vAttrValue c (startRow c a) (cstrOf a.value)))
+
+def vAttrs (c : WCfg) (attrs : List Attr) : List (Bytes × Bytes) :=
+  if c.lang.attrs.isSome then attrs.map (vAttr c) else []
+
+theorem iconRow_id (id : Nat) (r : AttrRow) (h : iconRow id r = true) : (id == 1901) = true := by
+  simp only [iconRow, Bool.and_eq_true] at h; exact h.1.1
+
 theorem attrValueText_plain (ctx : Ctx) (h : noTypedAttr ctx.lang.id = true) (name : AName) (raw : Bytes) :
     attrValueText ctx name raw = some raw := by
   unfold attrValueText
@@ -991,9 +1136,11 @@ structure AttrRes (c : WCfg) (na : Option (List Attr)) (nm v : Bytes) (st st' : 
     (iconCtx na = true → iconValName c.lang nm = true → v.isEmpty = true ∨ b64NonEmpty v = true) →
     wfAttr ctx st.attrPage a = true
 
-theorem encAttrW_spec (c : WCfg) (na : Option (List Attr)) (a : Attr) (st st' : WSt)
+theorem encAttrW_spec' (c : WCfg) (na : Option (List Attr)) (a : Attr) (st st' : WSt)
     (ha : attrOver c.lang a = true) (attrs : List AttrRow) (hattrs : c.lang.attrs = some attrs)
-    (h : encAttrW c na a st = .ok st') : ∃ sa, AttrRes c na a.name.cName (cstrOf a.value) st st' sa := by
+    (h : encAttrW c na a st = .ok st') : ∃ sa, AttrRes c na a.name.cName (cstrOf a.value) st st' sa ∧
+      (∀ ctx : Ctx, RdT c st'.strtbl ctx → (c.lang.id == 1901) = false →
+        attrView (evAttr ctx st.attrPage sa).1 = vAttr c a) := by
   unfold encAttrW at h
   rw [hattrs] at h
   simp only at h
@@ -1057,7 +1204,100 @@ theorem encAttrW_spec (c : WCfg) (na : Option (List Attr)) (a : Attr) (st st' : 
         rcases hvr.dt r hr hd with h | h
         · exact h
         · exact absurd hno h
-    refine ⟨⟨as, vals⟩, ?_, ?_, ?_, ?_, ?_, hwf0, ?_, fun hu => hvr.noopq hu, ?_, ?_⟩
+    have hcurS : st1.curAttr = startRow c a := attrStartW_cur c a st st1 rest hs
+    have hviewT : ∀ ctx : Ctx, RdT c st2.strtbl ctx → (c.lang.id == 1901) = false →
+        attrView (evAttr ctx st.attrPage ⟨as, vals⟩).1 = vAttr c a := by
+      intro ctx hr hno
+      have hr1 : RdT c st1.strtbl ctx := hr.of_eq hvr.tbl.symm
+      have hnf := attrOver_nulFree c a attrs hattrs ha hr.an
+      have hname := astartOk_name' c _ _ _ _ _ hres.ok ctx hr1 hnf
+      have hno' : (ctx.lang.id == 1901) = false := by rw [hr.lang]; exact hno
+      have hoa : ∀ p, opaqueAttrText ctx p = some p := by
+        intro p
+        simp only [opaqueAttrText, decodeOpaqueAttrValue, hno', Bool.false_eq_true, ↓reduceIte]
+      have hnoicon : ∀ r p s, ¬ (iconRow c.lang.id r = true ∧ iconCtx na = true ∧ Codec.b64DecodeE (b64TextW s) = .ok p) := by
+        intro r p s hh
+        have := iconRow_id _ _ hh.1
+        rw [hno] at this; cases this
+      simp only [vAttr, ← hcurS]
+      have hok := hres.ok
+      cases hok' : st1.curAttr with
+      | none =>
+        rw [hok'] at hok hpre
+        have hplain : opqsAVals vals = [] := by
+          rcases hvr.typed with hno2 | ⟨p, _, _, _, r, hcur, _⟩
+          · exact hno2
+          · rw [hok'] at hcur; cases hcur
+        have hraw := hvalue ctx hr.lang hr.ok hr.vs hr.as hr.res hplain
+        cases hok with
+        | lit off ho =>
+          simp only [attrView, evAttr, vAttrValue]
+          have hnm : (astartName ctx st.attrPage (AStart.lit off)).1.xmlName = a.name.cName := hname
+          rw [hnm, hraw]
+          simp [attrValueText, astartName, isDatetimeAttr]
+      | some r =>
+        rw [hok'] at hok hpre
+        cases hok with
+        | tok attrs' r0 ha' hr' hn' =>
+          have hrange := attrRange r (langOk_attrs hr.ok ha' hr').1
+          obtain ⟨r', hf, hm, ht, hp⟩ := attrRow_found' c ctx hr.lang attrs' ha' r hr' hrange.2 st.attrPage
+          have hnm : (astartName ctx st.attrPage (AStart.tok (swFor st.attrPage r.page) r.token)).1.xmlName =
+              a.name.cName := hname
+          have hisdt : isDatetimeAttr ctx (.token r') = dtRow c.lang.id r := by
+            show dtRow ctx.lang.id r' = _
+            rw [hr.lang, dtRow_congr _ r r' ht hp]
+          by_cases hd : dtRow c.lang.id r = true
+          · have hpre0 := (langOk_attrs hr.ok ha' hr').2 hd
+            have hd' : dtRow c.lang.id r' = true := by rw [dtRow_congr _ r r' ht hp]; exact hd
+            have hpre0' := (langOk_attrs hr.ok ha' hm).2 hd'
+            simp only [preOf, hpre0, List.nil_append] at hpre
+            rcases hvr.typed with hno2 | ⟨p, hvals, hsne, _, r1, hcur, hcase⟩
+            · have hv0 : vals = [] := by
+                rcases hvr.dt r hok' hd with h0 | h0
+                · exact h0
+                · exact absurd hno2 h0
+              have hs0 := hvr.text ctx hr.lang hr.ok hr.vs hr1.res hno2
+              rw [hv0] at hs0
+              have hv : cstrOf a.value = [] := by rw [hpre, ← hs0]; rfl
+              subst hv0
+              simp only [attrView, evAttr, vAttrValue, hv, hd, List.isEmpty_nil, Bool.not_true, Bool.and_false,
+                Bool.false_eq_true, ↓reduceIte]
+              rw [hnm]
+              simp [astartName, hf, hpre0', avalsText, attrValueText]
+            · rw [hok'] at hcur
+              injection hcur with hcur; subst hcur
+              rcases hcase with ⟨_, hpay⟩ | hic
+              · subst hvals
+                rw [← hpre] at hpay hsne
+                have hne : (cstrOf a.value).isEmpty = false := by
+                  cases hx : cstrOf a.value with
+                  | nil => exact absurd hx hsne
+                  | cons _ _ => rfl
+                simp only [attrView, evAttr, vAttrValue, hd, hne, Bool.not_false, Bool.and_self, ↓reduceIte, hpay]
+                rw [hnm]
+                simp only [astartName, hf, hpre0', avalsText, avalText, hoa, Option.getD_some, List.nil_append,
+                  List.append_nil, attrValueText, hisdt, hd, Bool.and_true, dtShow]
+                cases hpe : p.isEmpty with
+                | true => simp [List.isEmpty_iff.mp hpe]
+                | false =>
+                  simp only [Bool.not_false, ↓reduceIte, Bool.false_eq_true]
+                  cases decodeDatetime p <;> rfl
+              · exact absurd hic (hnoicon _ _ _)
+          · have hd0 : dtRow c.lang.id r = false := by simpa using hd
+            have hplain : opqsAVals vals = [] := by
+              rcases hvr.typed with hno2 | ⟨p, _, _, _, r1, hcur, hcase⟩
+              · exact hno2
+              · rw [hok'] at hcur
+                injection hcur with hcur; subst hcur
+                rcases hcase with ⟨hd1, _⟩ | hic
+                · rw [hd0] at hd1; cases hd1
+                · exact absurd hic (hnoicon _ _ _)
+            have hraw := hvalue ctx hr.lang hr.ok hr.vs hr.as hr.res hplain
+            simp only [attrView, evAttr, vAttrValue, hd0, Bool.false_and, Bool.false_eq_true, ↓reduceIte]
+            rw [hnm, hraw]
+            simp only [astartName, hf, attrValueText, hisdt, hd0, Bool.and_false, Bool.false_eq_true, ↓reduceIte,
+              Option.getD_some]
+    refine ⟨⟨as, vals⟩, ⟨?_, ?_, ?_, ?_, ?_, hwf0, ?_, fun hu => hvr.noopq hu, ?_, ?_⟩, hviewT⟩
     · show st2.out = _
       rw [hvr.out, hres.out, serAttr, List.append_assoc]
     · intro ctx
@@ -1108,6 +1348,12 @@ theorem encAttrW_spec (c : WCfg) (na : Option (List Attr)) (a : Attr) (st st' : 
           · exact h3
 
 
+theorem encAttrW_spec (c : WCfg) (na : Option (List Attr)) (a : Attr) (st st' : WSt)
+    (ha : attrOver c.lang a = true) (attrs : List AttrRow) (hattrs : c.lang.attrs = some attrs)
+    (h : encAttrW c na a st = .ok st') : ∃ sa, AttrRes c na a.name.cName (cstrOf a.value) st st' sa := by
+  obtain ⟨sa, hsa, _⟩ := encAttrW_spec' c na a st st' ha attrs hattrs h
+  exact ⟨sa, hsa⟩
+
 /-! ### The attribute list -/
 
 structure AttrsRes (c : WCfg) (na : Option (List Attr)) (l : List Attr) (st st' : WSt) (as : List Attribute) : Prop where
@@ -1123,9 +1369,11 @@ structure AttrsRes (c : WCfg) (na : Option (List Attr)) (l : List Attr) (st st' 
   wfT : ∀ ctx, Compat c st'.strtbl ctx → langOk c.lang = true → typedLangOk c.lang = true →
     l.all (dtAttrOk c.lang) = true → l.all (iconAttrOk c.lang na) = true → wfAttrs ctx st.attrPage as = true
 
-theorem encAttrsW_spec (c : WCfg) (na : Option (List Attr)) (attrs : List AttrRow) (hattrs : c.lang.attrs = some attrs) :
+theorem encAttrsW_spec' (c : WCfg) (na : Option (List Attr)) (attrs : List AttrRow) (hattrs : c.lang.attrs = some attrs) :
     ∀ (l : List Attr) (st st' : WSt), l.all (attrOver c.lang) = true → encAttrsW c na l st = .ok st' →
-      ∃ as, as.length = l.length ∧ AttrsRes c na l st st' as := by
+      ∃ as, as.length = l.length ∧ AttrsRes c na l st st' as ∧
+        (∀ ctx : Ctx, RdT c st'.strtbl ctx → (c.lang.id == 1901) = false →
+          (evAttrs ctx st.attrPage as).1.map attrView = l.map (vAttr c)) := by
   intro l
   induction l with
   | nil =>
@@ -1133,8 +1381,8 @@ theorem encAttrsW_spec (c : WCfg) (na : Option (List Attr)) (attrs : List AttrRo
     simp only [encAttrsW] at h
     have h' : (Except.ok st : Except Err WSt) = .ok st' := h
     injection h' with h'; subst h'
-    exact ⟨[], rfl, by simp [serAttrs], fun _ => rfl, rfl, TblExt.refl _ _, (by intro o ho; cases ho), fun _ _ _ _ => rfl,
-      fun _ => rfl, fun _ _ => rfl, fun _ _ _ _ _ _ => rfl⟩
+    exact ⟨[], rfl, ⟨by simp [serAttrs], fun _ => rfl, rfl, TblExt.refl _ _, (by intro o ho; cases ho), fun _ _ _ _ => rfl,
+      fun _ => rfl, fun _ _ => rfl, fun _ _ _ _ _ _ => rfl⟩, fun _ _ _ => rfl⟩
   | cons a rest ih =>
     intro st st' hall h
     simp only [List.all_cons, Bool.and_eq_true] at hall
@@ -1147,10 +1395,19 @@ theorem encAttrsW_spec (c : WCfg) (na : Option (List Attr)) (attrs : List AttrRo
       have h' : (encAttrW c na a st >>= fun st => encAttrsW c na rest st) = .ok st' := h
       rw [h1] at h'
       have h2 : encAttrsW c na rest st1 = .ok st' := h'
-      obtain ⟨sa, hsa⟩ := encAttrW_spec c na a st st1 hall.1 attrs hattrs h1
-      obtain ⟨as, hlen, has⟩ := ih st1 st' hall.2 h2
-      refine ⟨sa :: as, by simp [hlen], ?_, ?_, ?_, hsa.tbl.trans has.tbl, ?_, ?_,
-        fun hu => by simp only [opqsAttrs, hsa.noopq hu, has.noopq hu, List.append_nil], ?_, ?_⟩
+      obtain ⟨sa, hsa, hsaT⟩ := encAttrW_spec' c na a st st1 hall.1 attrs hattrs h1
+      obtain ⟨as, hlen, has, hasT⟩ := ih st1 st' hall.2 h2
+      have hT : ∀ ctx : Ctx, RdT c st'.strtbl ctx → (c.lang.id == 1901) = false →
+          (evAttrs ctx st.attrPage (sa :: as)).1.map attrView = (a :: rest).map (vAttr c) := by
+        intro ctx hr hno
+        have hv := hsaT ctx (hr.mono has.tbl.pre) hno
+        have hrest := hasT ctx hr hno
+        rw [hsa.ap ctx] at hrest
+        show attrView (evAttr ctx st.attrPage sa).1 :: (evAttrs ctx (evAttr ctx st.attrPage sa).2 as).1.map attrView = _
+        rw [hv, hrest]
+        rfl
+      refine ⟨sa :: as, by simp [hlen], ⟨?_, ?_, ?_, hsa.tbl.trans has.tbl, ?_, ?_,
+        fun hu => by simp only [opqsAttrs, hsa.noopq hu, has.noopq hu, List.append_nil], ?_, ?_⟩, hT⟩
       · rw [has.out, hsa.out, serAttrs, List.append_assoc]
       · intro ctx; rw [evAttrs_cons_page, has.ap ctx, hsa.ap ctx]
       · rw [has.tp, hsa.tp]
@@ -1185,6 +1442,13 @@ theorem encAttrsW_spec (c : WCfg) (na : Option (List Attr)) (attrs : List AttrRo
           simpa [iconAttrOk, ha1, ha2] using this
         · rw [← hsa.ap ctx]
           exact has.wfT ctx hc hl htl h1.2 h2.2
+
+theorem encAttrsW_spec (c : WCfg) (na : Option (List Attr)) (attrs : List AttrRow) (hattrs : c.lang.attrs = some attrs) :
+    ∀ (l : List Attr) (st st' : WSt), l.all (attrOver c.lang) = true → encAttrsW c na l st = .ok st' →
+      ∃ as, as.length = l.length ∧ AttrsRes c na l st st' as := by
+  intro l st st' h1 h2
+  obtain ⟨as, h3, h4, _⟩ := encAttrsW_spec' c na attrs hattrs l st st' h1 h2
+  exact ⟨as, h3, h4⟩
 
 theorem encAttrsW_noattrs (c : WCfg) (na : Option (List Attr)) (hattrs : c.lang.attrs = none) :
     ∀ (l : List Attr) (st : WSt), encAttrsW c na l st = .ok st := by
@@ -1294,6 +1558,63 @@ theorem nameOver_nulFree (c : WCfg) (name : Name) (hn : nameOver c.lang name = t
       simp only [tagSemOk, ht, List.all_eq_true, Bool.and_eq_true] at hts
       exact (hts r hn).1
 
+/-- The name a reader gives the tag written for a node: the name of the FIRST row with the page and
+    token of the row `wbxml_encode_tag` found (its alias, where the table has aliases: ActiveSync), or
+    the node's own name for a literal tag. -/
+def nameView (l : Lang) (found : Option TagRow) (nm : Bytes) : Bytes :=
+  match found with
+  | some r =>
+    match l.tags with
+    | some tags =>
+      match decTag tags r.page r.token with
+      | some d => d.name
+      | none => nm
+    | none => nm
+  | none => nm
+
+theorem TagOk.lit_inv {c : WCfg} {tbl : List StrEntry} {tp : Nat} {nm : Bytes} {sw : Option Nat} {off : Nat}
+    (h : TagOk c tbl tp nm sw (.lit off)) : ∃ e ∈ tbl, e.offset = off ∧ e.str = nm := by
+  generalize ht : Tag.lit off = tag at h
+  cases h with
+  | tok tags r _ _ _ => cases ht
+  | lit off' ho => injection ht with ht; subst ht; exact ho
+
+theorem foundOf_token' (c : WCfg) (r0 : TagRow) (st : WSt) : foundOf c (.token r0) st = some r0 := rfl
+
+theorem tagLink_name (c : WCfg) (name : Name) (st : WSt) (tbl) (sw tag)
+    (hok : TagOk c tbl st.tagPage name.cName sw tag) (hlink : TagLink c name st sw tag)
+    (hn : nameOver c.lang name = true) (ctx : Ctx) (hlang : ctx.lang = c.lang) (hl : langOk c.lang = true)
+    (hres : Resolves ctx.tbl tbl) :
+    (tagName ctx (swPage sw st.tagPage) tag).1.xmlName = nameView c.lang (foundOf c name st) name.cName := by
+  unfold TagLink at hlink
+  cases hf : foundOf c name st with
+  | some r =>
+    rw [hf] at hlink
+    obtain ⟨rfl, rfl⟩ := hlink
+    obtain ⟨tags, ht, hm⟩ := foundOf_mem c name st hn r hf
+    have hrange := tagRange r (langOk_tags hl ht hm)
+    rw [swPage_swFor, Nat.mod_eq_of_lt hrange.2.2]
+    have ht' : ctx.lang.tags = some tags := by rw [hlang]; exact ht
+    simp only [tagName, tagRow, ht', nameView, ht]
+    have : List.find? (fun x => x.token == r.token && x.page == r.page) tags = decTag tags r.page r.token := rfl
+    rw [this]
+    cases hd : decTag tags r.page r.token with
+    | none =>
+      have := List.find?_eq_none.mp hd r hm
+      simp at this
+    | some d => rfl
+  | none =>
+    rw [hf] at hlink
+    obtain ⟨rfl, off, rfl⟩ := hlink
+    have hnf : nulFree name.cName = true := by
+      cases name with
+      | token r0 => rw [foundOf_token'] at hf; cases hf
+      | literal s => exact nulFree_cstrOf s
+    obtain ⟨e, he, rfl, hstr⟩ := hok.lit_inv
+    simp only [tagName, Name.xmlName, nameView]
+    rw [← hstr]
+    exact hres e he (by rw [hstr]; exact hnf)
+
 theorem encElementStartW_spec' (c : WCfg) (name : Name) (attrs : List Attr) (hasContent : Bool) (st st' : WSt)
     (hl : langOk c.lang = true) (hn : nameOver c.lang name = true) (ha : attrs.all (attrOver c.lang) = true)
     (h : encElementStartW c (some attrs) name attrs hasContent st = .ok st') :
@@ -1301,7 +1622,9 @@ theorem encElementStartW_spec' (c : WCfg) (name : Name) (attrs : List Attr) (has
       TagLink c name st sw tag ∧
       (∀ ctx, Compat c st'.strtbl ctx → langOk c.lang = true → typedLangOk c.lang = true →
         attrs.all (dtAttrOk c.lang) = true → attrs.all (iconAttrOk c.lang (some attrs)) = true →
-        wfAttrs ctx st.attrPage as = true) := by
+        wfAttrs ctx st.attrPage as = true) ∧
+      (∀ ctx : Ctx, RdT c st'.strtbl ctx → (c.lang.id == 1901) = false →
+        (evAttrs ctx st.attrPage as).1.map attrView = vAttrs c attrs) := by
   unfold encElementStartW at h
   simp only at h
   cases ht : encTagW c name hasContent (!attrs.isEmpty && c.lang.attrs.isSome) st with
@@ -1325,7 +1648,8 @@ theorem encElementStartW_spec' (c : WCfg) (name : Name) (attrs : List Attr) (has
       have h3 : (Except.ok st1 : Except Err WSt) = .ok st' := h2
       injection h3 with h3; subst h3
       refine ⟨sw, tag, [], ⟨?_, htp, fun _ => hap, htbl, htag, (by intro o ho; cases ho), fun _ _ _ _ => rfl, fun _ => rfl,
-        fun _ _ => by simp [srcAttrsView, hat, evAttrs_nil]⟩, hlink, fun _ _ _ _ _ _ => rfl⟩
+        fun _ _ => by simp [srcAttrsView, hat, evAttrs_nil]⟩, hlink, fun _ _ _ _ _ _ => rfl,
+        fun _ _ _ => by simp [vAttrs, hat, evAttrs_nil]⟩
       simpa using hout
     | some atbl =>
       cases ha2 : encAttrsW c (some attrs) attrs st1 with
@@ -1335,14 +1659,21 @@ theorem encElementStartW_spec' (c : WCfg) (name : Name) (attrs : List Attr) (has
         have h3 : (Except.ok (if (!attrs.isEmpty && c.lang.attrs.isSome) = true then st2.emit [0x01] else st2) :
           Except Err WSt) = .ok st' := h2
         injection h3 with h3
-        obtain ⟨as, hlen, has⟩ := encAttrsW_spec c (some attrs) atbl hat attrs st1 st2 ha ha2
+        obtain ⟨as, hlen, has, hasT⟩ := encAttrsW_spec' c (some attrs) atbl hat attrs st1 st2 ha ha2
         have hemp : as.isEmpty = attrs.isEmpty := by
           cases as <;> cases attrs <;> simp_all
         simp only [hat, Option.isSome_some, Bool.and_true] at h3 hout
-        refine ⟨sw, tag, as, ⟨?_, ?_, ?_, ?_, ?_, ?_, ?_, has.noopq, ?_⟩, hlink, ?_⟩
-        rotate_right
+        refine ⟨sw, tag, as, ⟨?_, ?_, ?_, ?_, ?_, ?_, ?_, has.noopq, ?_⟩, hlink, ?_, ?_⟩
+        rotate_right 2
         · have : st'.strtbl = st2.strtbl := by rw [← h3]; split <;> rfl
           rw [this, ← hap]; exact has.wfT
+        · have : st'.strtbl = st2.strtbl := by rw [← h3]; split <;> rfl
+          intro ctx hr hno
+          rw [this] at hr
+          have := hasT ctx hr hno
+          rw [hap] at this
+          simp only [vAttrs, hat, Option.isSome_some, ↓reduceIte]
+          exact this
         · rw [← h3, hemp]
           cases hae : attrs.isEmpty with
           | true =>
